@@ -78,6 +78,13 @@ RULE = ("cells = (pair family x parametrisation x dimension/geometry x interface
         "GMRF supported cells whose node count exists on both grid layouts (2-D N x N <-> 1-D with N*N nodes): a GMRF of the "
         "same dimension, order and bc on the OTHER layout is built before the members of the cell, and the other layout is "
         "itself a judged member (3 priors) after them - both orders inside the one cell.  "
+        "Every supported cell also runs the hyper-prior magnitude facet: prior Gamma(3, 2 x 2^e) and Gamma(3 x 2^e, 2 x 2^e), e "
+        "in {-70,-30,0,30} (7 priors, exact powers of two) x generic mean and data multiplied by 2^ds, ds in {-30,0,30}; two "
+        "oracles per member: the captured request against target.logd on the standard grid in units of 2^round(log2(E t)) "
+        "(signature ..|<mismatch>,prior-magnitude), and the VALUE returned when the scripted stream answers like numpy's "
+        "generator (standard-gamma variate 0.8125 x the requested scale): it equals variate / rate, rate = the densely written "
+        "textbook rate r'P1r/2+b (Gaussian, GMRF zero bc) resp. the rate fitted to target.logd on the grid (GMRF neumann / "
+        "periodic bc) (signature ..|value-drawn,prior-magnitude).  "
         "A supported cell is non-trivial when the sampler accepted the target "
         "and issued a Gamma request; a refusal / near-miss cell when the same route accepts the supported control posterior "
         "(for a near-miss cell: the d = 0 twin of the same pair and parameter); a name cell when target.logd or a captured "
@@ -86,7 +93,8 @@ BOUND = {
     "quick": "Gaussian dims 1..4 x {cov=1/s, cov=1.0/s, prec=s, prec=s*ones, scalar mean with cov / prec}; GMRF 1-D "
              "N=2..5 + 2-D 2x2,3x3 x bc {zero,neumann,periodic} x order 0..2; 9 Gamma(shape,rate) x 11 mean/data kinds "
              "(1 generic vector, zero residual, 5 zero/integer kinds, 4 magnitude kinds: offset 2^27, offset -2^40, scale "
-             "2^30, scale 2^-30); t-grid {0.1,0.5,1,2,7,30}; refusal alphabet: 19 "
+             "2^30, scale 2^-30) + 21 hyper-prior magnitude members (7 priors with rate / shape and rate x 2^{-70,-30,0,30} x "
+             "data scale 2^{-30,0,30}); t-grid {0.1,0.5,1,2,7,30}; refusal alphabet: 19 "
              "unsupported dependences / priors + 9 several-occurrence likelihoods (mean with cov, prec, sqrtcov, sqrtprec; "
              "GMRF mean with prec, zero and periodic bc; mean forms s*v, sqrt(s)*v, v/s) on both interfaces + (LMRF "
              "location with scale) on ConjugateApprox, x 5 routes on the stateful interface; near-miss family (stateful "
@@ -135,6 +143,11 @@ ASSUMPTIONS = [
     "threshold of float64, extreme prior shape / rate values and extreme magnitudes in the refusal, near-miss (data "
     "scale 2^10 there), name and producer cells are not covered; for GMRF with neumann / periodic bc a constant offset "
     "is in the null space of the difference operator, there the facet shows through the dyadic part of the mean only",
+    "hyper-prior magnitude facet: one base prior Gamma(3, 2), generic residual, constructor+step route, supported pairs "
+    "only; exponents beyond 2^-70 / 2^30, shape scaled alone, shape < 1 at extreme rates and a zero residual at extreme "
+    "priors are not covered; the value oracle assumes numpy's gamma(shape, scale) = standard_gamma(shape) * scale and uses "
+    "one scripted variate (0.8125); tolerance 1e-9 relative (1e-5 for GMRF neumann / periodic bc, whose comparator is the "
+    "rate of target.logd itself, fitted by least squares on the 6-point grid)",
     "data catalogue: float64 and int64 arrays; lists, float32, masked arrays and non-finite data are not covered",
     "stateless interface (cuqi.sampler.Conjugate): its only acceptance route is constructor followed by step (target is "
     "a plain attribute, there is no validation stage or listing); 'rejected' = an exception before a draw is returned. "
@@ -283,13 +296,19 @@ def cells(tier, seed):
 # ----------------------------------------------------------------------------------------
 # running the real samplers with the Gamma request captured
 # ----------------------------------------------------------------------------------------
-def _run_conjugate(target, iface, extra=False):
-    """Returns (captured gamma requests, returned draws).  Library exceptions propagate to the caller."""
+def _run_conjugate(target, iface, extra=False, variate=None):
+    """Returns (captured gamma requests, returned draws).  Library exceptions propagate to the caller.
+    variate: when given, the scripted stream behaves like the real generator fed with this standard-gamma variate:
+    the answer to gamma(shape, scale) is variate * scale (numpy's own transform), so the VALUE drawn is determined."""
     import cuqi
     cap = []
 
     def answer(rec, i):
         cap.append(rec)
+        if variate is not None:
+            sc = np.asarray(rec["scale"], float).ravel()
+            if sc.size == 1:
+                return float(variate * sc[0])
         return DRAW + 0.5 * i
 
     s = Stream(gamma=answer)
@@ -426,6 +445,12 @@ DATA_KINDS = ["data=0", "data=some0", "data=int", "mean=0", "mean=data=0"]
 MAG_KINDS = ["offset=2^27", "offset=-2^40", "scale=2^30", "scale=2^-30"]
 MAG_GRID_EXP = {"scale=2^30": -60}      # t-grid multiplied by 2^e: placed where the conditional has its mass
 SPECIAL_KINDS = DATA_KINDS + MAG_KINDS
+# magnitude of the HYPER-PRIOR crossed with the magnitude of mean / data (all factors exact powers of two):
+#   prior Gamma(a, b * 2^e) and Gamma(a * 2^e, b * 2^e), (a, b) = HYPER_BASE, e in HYPER_EXPS; mean and data x 2^ds
+HYPER_EXPS = [-70, -30, 0, 30]
+HYPER_DSCALE = [-30, 0, 30]
+HYPER_BASE = (3.0, 2.0)
+HYPER_VARIATE = 0.8125        # the scripted standard-gamma variate: the generator returns variate * scale
 _COUNTS = (0, 3, 0, 1, 2, 0, 0, 5, 1, 0, 4, 0)
 
 
@@ -624,6 +649,7 @@ def _eval_supported(cell, res):
                 res.sample = {"prior": [a, r], "residual": rname, "captured_shape": cap[0]["shape_param"],
                               "captured_scale": cap[0]["scale"], "t_grid": GRID, "target_logd": tl}
     GRID = _GRID0
+    judged += _eval_hyper_magnitude(cell, res, build, comp, fam, n, tol)
     if other is not None:
         # ... and the other layout as a member, built AFTER this cell's members (both orders inside one cell)
         mean = refs.dyadic_vec(n, cell["cat"] + 1, scale=0.125)
@@ -666,6 +692,113 @@ def _eval_supported(cell, res):
     if judged == 0:
         res.nontrivial = False
     return res
+
+
+def _hyper_members():
+    a0, b0 = HYPER_BASE
+    for e in HYPER_EXPS:
+        for which in (("rate",) if e == 0 else ("rate", "shape+rate")):
+            a = a0 * 2.0 ** e if which == "shape+rate" else a0
+            yield "%s x 2^%d" % (which, e), a, b0 * 2.0 ** e
+
+
+def _eval_hyper_magnitude(cell, res, build, comp, fam, n, tol):
+    """Hyper-prior magnitude x data magnitude.  Two oracles per member: (1) the captured request against the target's own
+    density on the standard grid in units of c = 2^round(log2(E t)) (c from the densely written textbook update; an exact
+    change of units: Gamma(t; shape, scale) in u = t/c is Gamma(u; shape, scale/c)); (2) the VALUE returned, with the
+    scripted stream answering like the real generator (variate * requested scale), against variate / textbook rate."""
+    iface = cell["iface"]
+    grid = globals()["GRID"]
+    judged = 0
+    m0 = refs.dyadic_vec(n, cell["cat"] + 1, scale=0.125)
+    b0 = refs.dyadic_vec(n, cell["cat"], scale=0.25)
+    done = set()
+    textbook = cell["kind"] == "gauss" or cell["bc"] == "zero"      # proper models: the dense textbook rate is the comparator
+    for ds in HYPER_DSCALE:
+        mean, data = m0 * 2.0 ** ds, b0 * 2.0 ** ds
+        for pname, a, r in _hyper_members():
+            res.state("prior-magnitude|%s|data x 2^%d" % (pname, ds))
+            where = "prior Gamma(%r, %r) (%s), mean and data x 2^%d, m=%d" % (a, r, pname, ds, n)
+            focus = {"prior": [a, r], "prior_magnitude": pname, "data_scale_exp": ds}
+            try:
+                target = build(mean, data, a, r)
+            except Exception as e:
+                res.refused += 1
+                res.outcomes.add("build-refused:" + type(e).__name__)
+                continue
+            try:
+                sh_ref, rt_ref = _ref_params(cell, mean, data, a, r)
+                c = 2.0 ** round(math.log2(sh_ref / rt_ref))
+                tl = _target_logd(target, [u * c for u in grid])
+                res.transitions += len(grid)
+            except Exception as e:
+                res.outcomes.add("target-logd-raises:" + type(e).__name__)
+                continue
+            try:
+                cap, outs, others = _run_conjugate(target, iface, variate=HYPER_VARIATE)
+                res.transitions += len(outs)
+            except HarnessError as e:
+                res.fail("C10|%s|%s|other-randomness" % (comp, fam),
+                         "conjugate step issued a random request other than numpy.random.gamma: %s" % e)
+                continue
+            except Exception as e:      # "when the conjugate sampler accepts a posterior": refusal is allowed
+                res.refused += 1
+                res.outcomes.add("sampler-refused:" + type(e).__name__)
+                res.count("refused:prior-magnitude")
+                continue
+            if others or len(cap) != 1 or len(outs) != 1:
+                if "req" not in done:
+                    done.add("req")
+                    res.fail("C10|%s|%s|request-count,prior-magnitude" % (comp, fam),
+                             "%d Gamma requests, %d other random requests for %d draws (%s)" %
+                             (len(cap), len(others), len(outs), where), focus=focus)
+                continue
+            rec = cap[0]
+            res.evaluations += 1
+            judged += 1
+            res.count("prior-magnitude-judged")
+            if np.all(np.isfinite(tl)):
+                unit = dict(rec)
+                unit["scale"] = np.asarray(rec["scale"], float) / c
+                ok, what, info = _judge(unit, tl, grid, tol)
+                if not ok and what not in done:
+                    done.add(what)
+                    res.fail("C10|%s|%s|%s,prior-magnitude" % (comp, fam, what),
+                             "distribution drawn from, Gamma(shape=%r, rate=%r), is not proportional to the target's own "
+                             "density in the hyper-parameter: with t = u * 2^%d (captured rate in these units %r) the log-ratio "
+                             "varies over u=%s by %s (%s; textbook update Gamma(%r, %r))" %
+                             (info.get("shape"), 1.0 / float(np.ravel(rec["scale"])[0]) if np.size(rec["scale"]) == 1 else None,
+                              round(math.log2(c)), info.get("rate"), grid, np.round(info.get("diff", 0), 6), where,
+                              sh_ref, rt_ref), focus=focus, **info)
+            else:
+                res.count("target_logd_nonfinite")
+            ov = np.asarray(outs[0], float).ravel()
+            if textbook:
+                rate_want, src = rt_ref, "the exact conditional Gamma(%r, rate %r)" % (sh_ref, rt_ref)
+            elif np.all(np.isfinite(tl)):
+                # improper GMRFs (neumann / periodic bc): the library's regularised factor is part of the target's own
+                # density, so the comparator is the rate OF target.logd: least-squares fit of a log u - rate u + const
+                U = np.array(grid)
+                coef, *_ = np.linalg.lstsq(np.stack([np.log(U), U, np.ones_like(U)], axis=1), tl, rcond=None)
+                rate_want = -float(coef[1]) / c
+                src = "the target's own density along the hyper-parameter has the rate %r (fitted on the grid)" % rate_want
+                if not rate_want > 0:
+                    res.count("prior-magnitude-value-unjudged")
+                    continue
+            else:
+                res.count("prior-magnitude-value-unjudged")
+                continue
+            want = HYPER_VARIATE / rate_want
+            if ov.size != 1 or not (np.isfinite(ov[0]) and abs(ov[0] - want) <= max(tol, 1e-9) * abs(want)):
+                if "value" not in done:
+                    done.add("value")
+                    res.fail("C10|%s|%s|value-drawn,prior-magnitude" % (comp, fam),
+                             "with the generator scripted to behave like numpy's (standard-gamma variate %r times the requested "
+                             "scale) the value returned is %r; %s, which transforms this variate "
+                             "to %r (requested scale %r) (%s)" %
+                             (HYPER_VARIATE, ov.tolist(), src, want, np.ravel(rec["scale"]).tolist(), where),
+                             focus=focus, got=ov, want=want)
+    return judged
 
 
 def _other_layout(cell):
